@@ -66,13 +66,16 @@ func main() {
 
 	o := hlib.ParseFlags()
 	r := hlib.NewResult("C14", o)
-	r.Rule = "schedule campaign: a generated backend (3 profiles, 4 devices, 3 linked and 3 dedicated IPs, 2 human ids) is " +
-		"mutated (devices appear, vanish, move, change or swap keys; profiles deleted) and synchronised (full/partial) " +
+	r.Rule = "schedule campaign: a generated backend (3 profiles, 4 devices, 3 linked and 3 dedicated IPs over IPv4/IPv6/IPv4-mapped, 2 human ids) is " +
+		"mutated (devices appear, vanish, move, change or swap keys; profiles deleted; everything deleted) and synchronised (full/partial) " +
 		"into the real profiledb.Default, interleaved with look-ups and with flushes of the real clean-up goroutines " +
 		"(GOMAXPROCS(1), goroutine count observed, so a clean-up is provably before or after the next sync); every " +
-		"look-up is compared with the Lean model and, independently, with a reference computed from the latest records; " +
-		"restart campaign: the same with a real cache file and databases re-opened on it; round-trip campaign: " +
-		"generated profiles/devices with every field varied through Store/Load; a case is non-trivial when a stale " +
+		"look-up and the sync point of every storage request is compared with the Lean model and, independently, with a reference computed from the latest records; " +
+		"restart campaign: the same with a real cache file and databases re-opened on it; protocol campaign: the storage answers according to the " +
+		"sync point it is asked for (changes since t, tombstones, everything for the zero time), fails on demand, the database chooses the sync kind itself after a restart, " +
+		"and the reference is the backend's own state; pipeline campaign: the same backend behind an in-process gRPC server read by the real backendpb.ProfileStorage " +
+		"(wire conversion, rejected devices, sync_time trailer) with uncontrolled clean-ups, oracle only; round-trip campaign: " +
+		"generated profiles/devices with every field varied through Store/Load; kill campaign: SIGKILL during Store and a reader concurrent with Store; a case is non-trivial when a stale " +
 		"index entry was hit or a clean-up stayed pending across a sync (schedule), or a field is off-default (cache)"
 	m := hlib.StartModel(o.Model, "C14")
 	defer m.Close()
@@ -86,6 +89,8 @@ func main() {
 	h.scheduleCampaign()
 	h.malformedCampaign()
 	h.restartCampaign()
+	h.protocolCampaign()
+	h.pipelineCampaign()
 	h.roundTripCampaign()
 	h.killCampaign()
 	if o.Thorough() {
@@ -112,6 +117,9 @@ type devRec struct {
 	ded    []int
 	human  int
 	tag    int
+	// bad: the backend holds settings for this device that this server must
+	// reject (pipeline campaign only); such a device does not exist for it.
+	bad bool
 }
 
 type profRec struct {
@@ -124,8 +132,28 @@ type profRec struct {
 
 type resp struct {
 	full  bool
+	t     int // sync time of the response (logical; see timeOf)
 	profs []profRec
 	devs  []devRec
+}
+
+// Logical sync times: n > 0 is timeBase+n seconds, 0 is the zero time.
+var timeBase int64 = 1700000000
+
+func timeOf(n int) time.Time {
+	if n == 0 {
+		return time.Time{}
+	}
+
+	return time.Unix(timeBase+int64(n), 0)
+}
+
+func timeNum(t time.Time) int {
+	if t.IsZero() {
+		return 0
+	}
+
+	return int(t.Unix() - timeBase)
 }
 
 func pidStr(n int) agd.ProfileID  { return agd.ProfileID(fmt.Sprintf("p%d", n)) }
@@ -138,15 +166,32 @@ func humStr(n int) agd.HumanIDLower {
 	return agd.HumanIDLower(fmt.Sprintf("h%d", n))
 }
 
+// linkedAddr and dedAddr map the small pools onto all address families a
+// backend can deliver (4 or 16 bytes): IPv4, IPv6 and IPv4-mapped IPv6.  The
+// same number is a different address in the two pools.
 func linkedAddr(n int) netip.Addr {
-	if n == 0 {
+	switch {
+	case n == 0:
 		return netip.Addr{}
+	case n%3 == 1:
+		return netip.AddrFrom4([4]byte{192, 0, 2, byte(n)})
+	case n%3 == 2:
+		return netip.AddrFrom16([16]byte{0x20, 0x01, 0x0d, 0xb8, 15: byte(n)})
+	default:
+		return netip.AddrFrom16([16]byte{10: 0xff, 11: 0xff, 12: 192, 13: 0, 14: 2, 15: byte(n)})
 	}
-
-	return netip.AddrFrom4([4]byte{192, 0, 2, byte(n)})
 }
 
-func dedAddr(n int) netip.Addr { return netip.AddrFrom4([4]byte{198, 51, 100, byte(n)}) }
+func dedAddr(n int) netip.Addr {
+	switch n % 3 {
+	case 1:
+		return netip.AddrFrom16([16]byte{0x20, 0x01, 0x0d, 0xb8, 1, 15: byte(n)})
+	case 2:
+		return netip.AddrFrom4([4]byte{198, 51, 100, byte(n)})
+	default:
+		return netip.AddrFrom16([16]byte{10: 0xff, 11: 0xff, 12: 198, 13: 51, 14: 100, 15: byte(n)})
+	}
+}
 
 func (d devRec) real() *agd.Device {
 	var ded []netip.Addr
@@ -198,7 +243,7 @@ func b01(b bool) string {
 
 func (rs resp) line() string {
 	var sb strings.Builder
-	fmt.Fprintf(&sb, "sync %s %d %d", b01(rs.full), len(rs.profs), len(rs.devs))
+	fmt.Fprintf(&sb, "sync %s %d %d %d", b01(rs.full), rs.t, len(rs.profs), len(rs.devs))
 	for _, p := range rs.profs {
 		fmt.Fprintf(&sb, " %d %s %s %d %d", p.id, b01(p.auto), b01(p.deleted), p.tag, len(p.devs))
 		for _, d := range p.devs {
@@ -218,7 +263,18 @@ func (rs resp) line() string {
 // ---------------------------------------------------------------------------
 // The real database under a scripted storage.
 
-type storage struct{ next *profiledb.StorageProfilesResponse }
+// storage is the scripted backend.  It records the synchronisation point of
+// every request.  If serve is set, the response is computed from the request
+// (a backend that honours SyncTime); otherwise next is returned.
+type storage struct {
+	next    *profiledb.StorageProfilesResponse
+	serve   func(since time.Time) *profiledb.StorageProfilesResponse
+	fail    bool
+	lastReq time.Time
+	reqs    int
+}
+
+var errInjected = errors.New("injected storage failure")
 
 func (s *storage) CreateAutoDevice(
 	_ context.Context,
@@ -229,9 +285,30 @@ func (s *storage) CreateAutoDevice(
 
 func (s *storage) Profiles(
 	_ context.Context,
-	_ *profiledb.StorageProfilesRequest,
+	req *profiledb.StorageProfilesRequest,
 ) (*profiledb.StorageProfilesResponse, error) {
+	s.lastReq = req.SyncTime
+	s.reqs++
+	if s.fail {
+		return nil, errInjected
+	}
+	if s.serve != nil {
+		return s.serve(req.SyncTime), nil
+	}
+
 	return s.next, nil
+}
+
+// syncMetrics records what kind of synchronisation the database decided on.
+type syncMetrics struct {
+	profiledb.EmptyMetrics
+	lastFull bool
+	updates  int
+}
+
+func (m *syncMetrics) HandleProfilesUpdate(_ context.Context, u *profiledb.UpdateMetrics) {
+	m.lastFull = u.IsFullSync
+	m.updates++
 }
 
 type errColl struct{ errs []error }
@@ -241,6 +318,7 @@ func (c *errColl) Collect(_ context.Context, err error) { c.errs = append(c.errs
 type realDB struct {
 	db      *profiledb.Default
 	st      *storage
+	mt      *syncMetrics
 	ec      *errColl
 	base    int // goroutine count with no clean-up pending
 	pending int
@@ -250,11 +328,12 @@ type realDB struct {
 func newRealDB(path string) *realDB {
 	st := &storage{}
 	ec := &errColl{}
+	mt := &syncMetrics{}
 	db, err := profiledb.New(&profiledb.Config{
 		Logger:               slogutil.NewDiscardLogger(),
 		Storage:              st,
 		ErrColl:              ec,
-		Metrics:              profiledb.EmptyMetrics{},
+		Metrics:              mt,
 		CacheFilePath:        path,
 		FullSyncIvl:          time.Hour,
 		FullSyncRetryIvl:     time.Hour,
@@ -262,25 +341,45 @@ func newRealDB(path string) *realDB {
 	})
 	hlib.Must(err)
 
-	return &realDB{db: db, st: st, ec: ec, base: runtime.NumGoroutine(), path: path}
+	return &realDB{db: db, st: st, mt: mt, ec: ec, base: runtime.NumGoroutine(), path: path}
 }
 
 // early reports whether a clean-up goroutine ran although the harness did not
 // yield (the schedule of this case is then unknown and the case is dropped).
 func (x *realDB) early() bool { return runtime.NumGoroutine() != x.base+x.pending }
 
-func (x *realDB) sync(rs resp) error {
-	out := &profiledb.StorageProfilesResponse{SyncTime: time.Unix(1700000000, 0)}
+func (rs resp) real() *profiledb.StorageProfilesResponse {
+	out := &profiledb.StorageProfilesResponse{SyncTime: timeOf(rs.t)}
 	for _, p := range rs.profs {
 		out.Profiles = append(out.Profiles, p.real())
 	}
 	for _, d := range rs.devs {
 		out.Devices = append(out.Devices, d.real())
 	}
-	x.st.next = out
-	x.db.VerifC14ForceSyncKind(rs.full)
 
-	return x.db.Refresh(context.Background())
+	return out
+}
+
+// sync runs one Refresh that is answered with rs and returns the
+// synchronisation point the database asked for.
+func (x *realDB) sync(rs resp) (req int, err error) {
+	x.st.next, x.st.serve, x.st.fail = rs.real(), nil, false
+	x.db.VerifC14ForceSyncKind(rs.full)
+	err = x.db.Refresh(context.Background())
+
+	return timeNum(x.st.lastReq), err
+}
+
+// refresh runs one Refresh with the storage as configured by the caller.  If
+// force is nil the database decides on the kind of synchronisation itself.
+// It returns the kind decided on and the synchronisation point asked for.
+func (x *realDB) refresh(force *bool) (full bool, req int, err error) {
+	if force != nil {
+		x.db.VerifC14ForceSyncKind(*force)
+	}
+	err = x.db.Refresh(context.Background())
+
+	return x.mt.lastFull, timeNum(x.st.lastReq), err
 }
 
 // flush lets every pending clean-up goroutine run to completion.
@@ -529,9 +628,17 @@ func (ref *reference) unique() bool {
 // One case: a list of ops run on the real database, then on the model.
 
 type op struct {
-	kind string // sync, dev, link, ded, hum, flush, snap, restart
+	kind string // sync, fail, psync, dev, link, ded, hum, flush, snap, restart
 	a, b int
 	rs   resp
+	// psync: a Refresh against the backend that honours the request's sync
+	// time.  nmut backend changes (drawn from seed) happen first; the kind is
+	// forced to full unless auto; the storage call fails if failing.
+	seed    uint64
+	nmut    int
+	full    bool
+	auto    bool
+	failing bool
 }
 
 func (o op) line() string {
@@ -548,6 +655,10 @@ func (o op) line() string {
 		return fmt.Sprintf("snap %d %d %d %d", nDev, nIP, nHuman, nProf)
 	case "restart":
 		return fmt.Sprintf("restart %d", o.a)
+	case "fail":
+		return fmt.Sprintf("fail %d", o.a)
+	case "psync":
+		return fmt.Sprintf("psync seed=%d nmut=%d full=%t auto=%t failing=%t", o.seed, o.nmut, o.full, o.auto, o.failing)
 	}
 
 	return "bad"
@@ -586,6 +697,11 @@ func (h *harness) runCase(campaign string, ops []op, path string, report bool) (
 	want := []string{"ok"}
 	var st caseStats
 	discarded := false
+	expectedErrs := 0
+	// The backend of the protocol ops and the reference of what the cache
+	// file holds in that campaign (the backend at the last full sync).
+	var pb *pbackend
+	nextT := 0
 
 	violate := func(sig, what string) {
 		sigs = append(sigs, sig)
@@ -594,7 +710,9 @@ func (h *harness) runCase(campaign string, ops []op, path string, report bool) (
 			for _, o := range ops {
 				replay = append(replay, o.line())
 			}
-			r.Violate(sig, what, map[string]any{"campaign": campaign, "ops": replay})
+			// executed: the model lines run so far (responses as served), a
+			// complete recipe for a scripted storage.
+			r.Violate(sig, what, map[string]any{"campaign": campaign, "ops": replay, "executed": slices.Clone(lines[1:])})
 		}
 	}
 
@@ -604,13 +722,20 @@ func (h *harness) runCase(campaign string, ops []op, path string, report bool) (
 
 			break
 		}
-		lines = append(lines, o.line())
+		nextT++
+		if o.kind == "sync" {
+			o.rs.t = nextT
+			ops[i].rs.t = nextT
+		}
+		if o.kind != "psync" {
+			lines = append(lines, o.line())
+		}
 		switch o.kind {
 		case "sync":
 			if x.pending > 0 {
 				st.pendingAcross = true
 			}
-			err := x.sync(o.rs)
+			req, err := x.sync(o.rs)
 			if err != nil {
 				violate("refresh-error", fmt.Sprintf("Refresh failed at op %d: %v", i, err))
 			}
@@ -620,7 +745,75 @@ func (h *harness) runCase(campaign string, ops []op, path string, report bool) (
 				cacheRef.apply(o.rs)
 				cacheRef.wf = ref.wf
 			}
-			want = append(want, "ok")
+			want = append(want, fmt.Sprintf("ok %d", req))
+		case "fail":
+			// The storage fails: nothing may change.
+			x.st.fail = true
+			full := o.a != 0
+			_, req, err := x.refresh(&full)
+			x.st.fail = false
+			if err == nil {
+				violate("refresh-swallows-storage-error", "Refresh returned nil although the storage failed")
+			}
+			expectedErrs++
+			want = append(want, fmt.Sprintf("ok %d", req))
+		case "psync":
+			if pb == nil {
+				pb = newPBackend()
+			}
+			if x.pending > 0 {
+				st.pendingAcross = true
+			}
+			rng := rand.New(rand.NewPCG(o.seed, 14))
+			for _, name := range pb.mutate(rng, o.nmut) {
+				if report {
+					r.Count(campaign + ":mut:" + name)
+				}
+			}
+			var served *resp
+			x.st.fail = o.failing
+			x.st.serve = func(since time.Time) *profiledb.StorageProfilesResponse {
+				rs := pb.respond(timeNum(since))
+				served = &rs
+
+				return rs.real()
+			}
+			var force *bool
+			if !o.auto {
+				force = &o.full
+			}
+			full, req, err := x.refresh(force)
+			x.st.fail, x.st.serve = false, nil
+			switch {
+			case o.failing:
+				expectedErrs++
+				if err == nil {
+					violate("refresh-swallows-storage-error", "Refresh returned nil although the storage failed")
+				}
+				lines = append(lines, fmt.Sprintf("fail %s", b01(full)))
+				want = append(want, fmt.Sprintf("ok %d", req))
+				r.Count(campaign + ":sync-failed")
+			case err != nil || served == nil:
+				violate("refresh-error", fmt.Sprintf("Refresh failed at op %d: %v", i, err))
+				lines = append(lines, fmt.Sprintf("fail %s", b01(full)))
+				want = append(want, fmt.Sprintf("ok %d", req))
+			default:
+				// What the database now has to answer from is the backend's
+				// state, whatever the database asked for.
+				served.full = full
+				lines = append(lines, served.line())
+				want = append(want, fmt.Sprintf("ok %d", req))
+				ref = pb.reference()
+				if full {
+					cacheRef = pb.reference()
+					r.Count(campaign + ":sync-full")
+				} else {
+					r.Count(campaign + ":sync-partial")
+				}
+				if o.auto {
+					r.Count(campaign + ":sync-kind-chosen-by-db")
+				}
+			}
 		case "flush":
 			want = append(want, fmt.Sprintf("ok %d", x.flush()))
 		case "snap":
@@ -630,6 +823,10 @@ func (h *harness) runCase(campaign string, ops []op, path string, report bool) (
 			if o.a != cacheVerOK {
 				patchVersion(path, o.a)
 			}
+			if len(x.ec.errs) != expectedErrs {
+				violate("refresh-error", fmt.Sprintf("error collector received %d errors, %d storage failures were injected: %v", len(x.ec.errs), expectedErrs, x.ec.errs))
+			}
+			expectedErrs = 0
 			x = newRealDB(path)
 			loaded := cacheRef != nil && o.a == cacheVerOK && len(cacheRef.profs) > 0 && len(cacheRef.devs) > 0
 			if loaded {
@@ -647,7 +844,7 @@ func (h *harness) runCase(campaign string, ops []op, path string, report bool) (
 			if res.spawn > 0 {
 				st.staleHit = true
 			}
-			h.oracle(ref, o, res, violate)
+			h.oracle(ref, o, res, st.pendingAcross, violate)
 			if res.kind == "ok" {
 				st.found++
 			} else {
@@ -656,8 +853,8 @@ func (h *harness) runCase(campaign string, ops []op, path string, report bool) (
 		}
 	}
 	x.flush()
-	if len(x.ec.errs) > 0 {
-		violate("refresh-error", fmt.Sprintf("error collector received %v", x.ec.errs[0]))
+	if len(x.ec.errs) != expectedErrs {
+		violate("refresh-error", fmt.Sprintf("error collector received %d errors, %d storage failures were injected: %v", len(x.ec.errs), expectedErrs, x.ec.errs))
 	}
 	if discarded {
 		r.Count(campaign + ":discarded-early-cleanup")
@@ -705,7 +902,7 @@ func (h *harness) runCase(campaign string, ops []op, path string, report bool) (
 
 // oracle checks one look-up against the owner computed from the latest
 // records.
-func (h *harness) oracle(ref *reference, o op, res lookRes, violate func(sig, what string)) {
+func (h *harness) oracle(ref *reference, o op, res lookRes, pendingAcross bool, violate func(sig, what string)) {
 	if !ref.wf {
 		return
 	}
@@ -726,9 +923,15 @@ func (h *harness) oracle(ref *reference, o op, res lookRes, violate func(sig, wh
 	case len(own) == 0 && res.kind == "ok":
 		violate("lookup-"+o.kind+"-found-but-unowned", fmt.Sprintf("%s returned (%s, %s) although no current device owns the key", o.line(), res.pid, res.did))
 	case len(own) == 1 && res.kind != "ok":
-		violate("cleanup-overtaken-by-sync-deletes-new-owner:"+o.kind, fmt.Sprintf(
-			"%s is not-found although device d%d of profile p%d currently owns the key (a clean-up started by an earlier look-up ran after the synchronisation that re-assigned the key)",
-			o.line(), own[0].did, own[0].pid))
+		if pendingAcross {
+			violate("cleanup-overtaken-by-sync-deletes-new-owner:"+o.kind, fmt.Sprintf(
+				"%s is not-found although device d%d of profile p%d currently owns the key (a clean-up was pending across a synchronisation in this case: a clean-up started by an earlier look-up may have removed the new owner's entry)",
+				o.line(), own[0].did, own[0].pid))
+		} else {
+			violate("lookup-"+o.kind+"-owner-not-found", fmt.Sprintf(
+				"%s is not-found although device d%d of profile p%d currently owns the key in the latest synchronised data (no clean-up was pending across a synchronisation: the data was not requested, not applied, or not indexed)",
+				o.line(), own[0].did, own[0].pid))
+		}
 	case len(own) == 1:
 		p, d := ref.profs[own[0].pid], ref.devs[own[0].did]
 		if res.pid != string(pidStr(p.id)) || res.did != string(didStr(d.id)) {
@@ -844,7 +1047,42 @@ func (b *backend) mutate(rng *rand.Rand) string {
 
 		return ids[rng.IntN(len(ids))]
 	}
-	switch rng.IntN(12) {
+	choice := rng.IntN(50)
+	if choice >= 48 {
+		choice = 12 * 4
+	}
+	switch choice / 4 {
+	case 12: // boundary: every profile is deleted, or every device is
+		if rng.IntN(2) == 0 {
+			if len(b.profs) == 0 {
+				return "noop"
+			}
+			for pid, p := range b.profs {
+				for _, d := range p.devs {
+					delete(b.devs, d)
+					delete(b.devProf, d)
+				}
+				delete(b.profs, pid)
+				delete(b.dirty, pid)
+				b.gone[pid] = true
+			}
+
+			return "all-profiles-deleted"
+		}
+		if len(b.devs) == 0 {
+			return "noop"
+		}
+		ids := make([]int, 0, len(b.devs))
+		for id := range b.devs {
+			ids = append(ids, id)
+		}
+		sort.Ints(ids)
+		for _, d := range ids {
+			b.detach(d)
+			delete(b.devs, d)
+		}
+
+		return "all-devices-deleted"
 	case 0, 1: // a device appears
 		id := 1 + rng.IntN(nDev)
 		for k := 0; k < nDev && b.devs[id] != nil; k++ {
@@ -1061,6 +1299,102 @@ func (b *backend) response(rng *rand.Rand, full bool) (rs resp) {
 	return rs
 }
 
+// ---------------------------------------------------------------------------
+// A backend that honours the synchronisation point of the request: it keeps
+// the time of the last change of every profile (a change of one of its devices
+// counts) and of every deletion, and answers "since t" with exactly the
+// profiles changed after t, all their devices, and tombstones of the profiles
+// deleted after t; "since the zero time" is answered with everything.
+
+type pbackend struct {
+	b         *backend
+	clock     int
+	changedAt map[int]int
+	goneAt    map[int]int
+}
+
+func newPBackend() *pbackend {
+	return &pbackend{b: newBackend(), changedAt: map[int]int{}, goneAt: map[int]int{}}
+}
+
+func (pb *pbackend) harvest() {
+	for pid := range pb.b.dirty {
+		if _, ok := pb.b.profs[pid]; ok {
+			pb.changedAt[pid] = pb.clock
+			delete(pb.goneAt, pid)
+		}
+	}
+	for pid := range pb.b.gone {
+		pb.goneAt[pid] = pb.clock
+		delete(pb.changedAt, pid)
+	}
+	pb.b.dirty, pb.b.gone = map[int]bool{}, map[int]bool{}
+}
+
+func (pb *pbackend) mutate(rng *rand.Rand, n int) (names []string) {
+	for ; n > 0; n-- {
+		pb.clock++
+		names = append(names, pb.b.mutate(rng))
+		pb.harvest()
+	}
+
+	return names
+}
+
+// respond answers a request for the changes since logical time t.
+func (pb *pbackend) respond(since int) (rs resp) {
+	pb.clock++
+	rs.t = pb.clock
+	var pids []int
+	for pid := range pb.b.profs {
+		if since == 0 || pb.changedAt[pid] > since {
+			pids = append(pids, pid)
+		}
+	}
+	sort.Ints(pids)
+	for _, pid := range pids {
+		p := *pb.b.profs[pid]
+		p.devs = slices.Clone(p.devs)
+		rs.profs = append(rs.profs, p)
+		for _, d := range p.devs {
+			dev := *pb.b.devs[d]
+			dev.ded = slices.Clone(dev.ded)
+			rs.devs = append(rs.devs, dev)
+		}
+	}
+	if since != 0 {
+		var gone []int
+		for pid, at := range pb.goneAt {
+			if at > since {
+				gone = append(gone, pid)
+			}
+		}
+		sort.Ints(gone)
+		for _, pid := range gone {
+			rs.profs = append(rs.profs, profRec{id: pid, deleted: true, tag: pb.b.nextTag()})
+		}
+	}
+
+	return rs
+}
+
+// reference is the backend's current state as the property's specification.
+func (pb *pbackend) reference() *reference {
+	ref := newReference()
+	for pid, p := range pb.b.profs {
+		c := *p
+		c.devs = slices.Clone(p.devs)
+		ref.profs[pid] = c
+	}
+	for did, d := range pb.b.devs {
+		c := *d
+		c.ded = slices.Clone(d.ded)
+		ref.devs[did] = c
+	}
+
+	return ref
+}
+
 func randLookup(rng *rand.Rand) op {
 	switch rng.IntN(4) {
 	case 0:
@@ -1256,6 +1590,111 @@ func (h *harness) restartCampaign() {
 	}
 }
 
+// genProtocol generates a history for the backend that honours the sync time
+// of the request: backend changes, forced full/partial synchronisations,
+// failing storage calls, and (with restarts) restarts after which the database
+// decides on the kind of synchronisation itself.
+func (h *harness) genProtocol(rng *rand.Rand, length int, restarts bool) (ops []op) {
+	synced, afterRestart := false, false
+	psync := func() op {
+		o := op{kind: "psync", seed: rng.Uint64(), nmut: rng.IntN(4), full: !synced || rng.IntN(5) == 0}
+		if !synced {
+			o.nmut += 6 + rng.IntN(12)
+		}
+		if afterRestart && rng.IntN(4) != 0 {
+			o.auto = true
+		}
+		if synced && rng.IntN(5) == 0 {
+			o.failing = true
+		}
+
+		return o
+	}
+	for steps := 0; steps < length; steps++ {
+		switch x := rng.IntN(100); {
+		case x < 40:
+			o := psync()
+			if restarts {
+				ops = append(ops, op{kind: "flush"})
+			}
+			ops = append(ops, o)
+			if !o.failing {
+				synced, afterRestart = true, false
+			}
+		case x < 70:
+			ops = append(ops, randLookup(rng))
+			if restarts || rng.IntN(3) == 0 {
+				ops = append(ops, op{kind: "flush"})
+			}
+		case x < 78:
+			ops = append(ops, allLookups()...)
+			if restarts || rng.IntN(3) == 0 {
+				ops = append(ops, op{kind: "flush"})
+			}
+		case x < 82:
+			ops = append(ops, op{kind: "flush"}, op{kind: "snap"})
+		default:
+			if !restarts || !synced {
+				ops = append(ops, randLookup(rng))
+
+				continue
+			}
+			v := cacheVerOK
+			if rng.IntN(5) == 0 {
+				v = []int{0, cacheVerOK - 1, cacheVerOK + 1}[rng.IntN(3)]
+			}
+			ops = append(ops, op{kind: "restart", a: v})
+			ops = append(ops, allLookups()...)
+			ops = append(ops, op{kind: "flush"})
+			afterRestart = true
+			if v != cacheVerOK {
+				// The file keeps the foreign version until the next full sync
+				// rewrites it.
+				ops = append(ops, op{kind: "psync", seed: rng.Uint64(), nmut: rng.IntN(3), full: true})
+				afterRestart = false
+			}
+		}
+	}
+	ops = append(ops, op{kind: "flush"}, op{kind: "snap"})
+	ops = append(ops, allLookups()...)
+
+	return ops
+}
+
+// protocolCampaign checks the look-ups end to end against a backend that
+// answers according to the synchronisation point it is asked for: if the
+// database asks for the wrong point (or applies a partial answer as a full one,
+// or moves its point on a failed request) changes are lost and the look-ups
+// stop reflecting the backend.
+func (h *harness) protocolCampaign() {
+	rng := h.o.Rand("protocol")
+	n := 1500
+	if h.o.Thorough() {
+		n = 15000
+	}
+	path := filepath.Join(h.dir, "protocol.pb")
+	shrunk := 0
+	defer func() { timeBase = 1700000000 }()
+	for i := 0; i < n; i++ {
+		restarts := i%3 == 0
+		// Sync times long ago (a database restarted from the cache decides on a
+		// full sync) or just now (it decides on a partial one).
+		timeBase = 1700000000
+		if rng.IntN(2) == 0 {
+			timeBase = time.Now().Unix() - 1000
+		}
+		p := "none"
+		if restarts {
+			p = path
+		}
+		ops := h.genProtocol(rng, 6+rng.IntN(14), restarts)
+		if sigs := h.runCase("protocol", ops, p, true); len(sigs) > 0 && shrunk < 3 {
+			shrunk++
+			h.reportShrunk("protocol", ops, p)
+		}
+	}
+}
+
 // witnessCases replays the Lean counter-example witnesses on the real code.
 func (h *harness) witnessCases() {
 	a := func(id, linked, human int, ded ...int) devRec { return devRec{id: id, linked: linked, human: human, ded: ded, tag: id*10 + linked} }
@@ -1378,7 +1817,7 @@ func (h *harness) exhaustiveCampaign() {
 	muts := []mut{give(1), give(2), human(1), human(2), move(1), drop(1), add(1)}
 	looks := []op{{kind: "dev", a: 1}, {kind: "link", a: 1}, {kind: "ded", a: 1}, {kind: "hum", a: 1, b: 1}, {kind: "hum", a: 2, b: 1}}
 	alphabet := len(muts) + len(looks) + 1
-	depth := 4
+	depth := 5
 	var idx []int
 	var rec func()
 	count := 0
@@ -1433,7 +1872,10 @@ var tzNames = []string{"UTC", "Europe/Brussels", "America/New_York", "Asia/Tokyo
 
 func randPrefixes(rng *rand.Rand) (out []netip.Prefix) {
 	for k := rng.IntN(3); k > 0; k-- {
-		if rng.IntN(2) == 0 {
+		if rng.IntN(5) == 0 {
+			// IPv4-mapped IPv6: a 16-byte address that must stay one.
+			out = append(out, netip.PrefixFrom(netip.AddrFrom16([16]byte{10: 0xff, 11: 0xff, 12: byte(rng.IntN(256)), 13: byte(rng.IntN(256))}), []int{96, 104, 112, 128}[rng.IntN(4)]))
+		} else if rng.IntN(2) == 0 {
 			out = append(out, netip.PrefixFrom(netip.AddrFrom4([4]byte{byte(rng.IntN(256)), byte(rng.IntN(256)), 0, 0}), []int{0, 8, 16, 24, 32}[rng.IntN(5)]))
 		} else {
 			out = append(out, netip.PrefixFrom(netip.AddrFrom16([16]byte{0x20, 0x01, byte(rng.IntN(256))}), []int{0, 32, 64, 128}[rng.IntN(4)]))
@@ -1528,7 +1970,7 @@ func (h *harness) randProfile(rng *rand.Rand, id string, devIDs []agd.DeviceID) 
 	h.r.Count(fmt.Sprintf("cache:blocking-mode:%T", bm))
 	var rl agd.Ratelimiter = agd.GlobalRatelimiter{}
 	if bit() {
-		rl = agd.NewDefaultRatelimiter(&agd.RatelimitConfig{ClientSubnets: randPrefixes(rng), RPS: []uint32{0, 1, 100, 5000}[rng.IntN(4)], Enabled: true}, respSzEst)
+		rl = agd.NewDefaultRatelimiter(&agd.RatelimitConfig{ClientSubnets: randPrefixes(rng), RPS: []uint32{0, 1, 100, 5000, 65537}[rng.IntN(5)], Enabled: true}, respSzEst)
 		h.r.Count("cache:ratelimiter-default")
 	}
 	ttl := []time.Duration{0, 1, time.Second, 10*time.Second + 5, -1, -1500 * time.Millisecond, math.MaxInt64, math.MinInt64}[rng.IntN(8)]
@@ -1578,8 +2020,15 @@ func (h *harness) randDevice(rng *rand.Rand, id string, n int) (d *agd.Device, a
 		linked = netip.AddrFrom16([16]byte{10: 0xff, 11: 0xff, 12: 10, 15: byte(n)})
 	}
 	var ded []netip.Addr
-	for k := rng.IntN(3); k > 0; k-- {
-		ded = append(ded, netip.AddrFrom4([4]byte{198, 51, byte(n), byte(k)}))
+	for k := rng.IntN(4); k > 0; k-- {
+		switch rng.IntN(3) {
+		case 0:
+			ded = append(ded, netip.AddrFrom4([4]byte{198, 51, byte(n), byte(k)}))
+		case 1:
+			ded = append(ded, netip.AddrFrom16([16]byte{0x20, 0x01, 0xd, 0xb8, 2, 14: byte(n), 15: byte(k)}))
+		default:
+			ded = append(ded, netip.AddrFrom16([16]byte{10: 0xff, 11: 0xff, 12: 198, 13: 51, 14: byte(n), 15: byte(k)}))
+		}
 	}
 	human := agd.HumanIDLower("")
 	if bit() {
@@ -1684,6 +2133,7 @@ func canonDevice(d *agd.Device) string {
 }
 
 func (h *harness) roundTripCampaign() {
+	debug.SetGCPercent(100)
 	rng := h.o.Rand("roundtrip")
 	n := 1000
 	if h.o.Thorough() {
@@ -1864,6 +2314,8 @@ func storeChild(path string) {
 }
 
 func (h *harness) killCampaign() {
+	// The schedule campaigns switch the collector off inside a case.
+	debug.SetGCPercent(100)
 	rng := h.o.Rand("kill")
 	n := 6
 	if h.o.Thorough() {
@@ -1881,7 +2333,29 @@ func (h *harness) killCampaign() {
 		var stderr bytes.Buffer
 		cmd.Stderr = &stderr
 		hlib.Must(cmd.Start())
-		time.Sleep(time.Duration(20+rng.IntN(60)) * time.Millisecond)
+		// While the child replaces the file over and over, a concurrent reader
+		// must see an intact old or new content every time: the states a kill
+		// could leave behind are exactly the states a reader can observe.
+		deadline := time.Now().Add(time.Duration(20+rng.IntN(60)) * time.Millisecond)
+		for time.Now().Before(deadline) {
+			c, lerr := profiledb.VerifC14LoadCache(ctx, l, path, respSzEst)
+			switch {
+			case lerr != nil:
+				h.r.Violate("store-not-atomic-reader-sees-partial-cache", fmt.Sprintf("a reader concurrent with Store could not read the cache: %v", lerr),
+					map[string]any{"campaign": "kill", "how": "one process calls Storage.Store in a loop, another calls Storage.Load"})
+			case c == nil:
+				h.r.Count("kill:reader-no-file-yet")
+			default:
+				which := int(c.SyncTime.Unix() - 1000)
+				if which < 0 || which > 1 || len(c.Devices) != 200+1800*which || len(c.Profiles) != 1 || len(c.Profiles[0].DeviceIDs) != len(c.Devices) {
+					h.r.Violate("store-not-atomic-reader-sees-partial-cache", fmt.Sprintf("a reader concurrent with Store saw a cache that is neither the old nor the new content (sync time %v, %d devices)", c.SyncTime, len(c.Devices)),
+						map[string]any{"campaign": "kill", "how": "one process calls Storage.Store in a loop, another calls Storage.Load"})
+				}
+				h.r.Count("kill:reader-intact")
+			}
+			h.r.Evaluations++
+			time.Sleep(200 * time.Microsecond)
+		}
 		_ = cmd.Process.Signal(syscall.SIGKILL)
 		_ = cmd.Wait()
 		c, err := profiledb.VerifC14LoadCache(ctx, l, path, respSzEst)
